@@ -232,6 +232,28 @@ theorem unstake_lp_spec {e : Env} {p : Pos} {vault un : Nat} {o : UnstakeOut}
     obtain ⟨h1, h2, _, _⟩ := claims_disabled_full_only hs
     exact ⟨h1, h2⟩
 
+/-- **While claims are disabled only full exits are allowed — whatever the state of the LP-token controller.** The
+handler-level form of `claims_disabled_full_only`, with the controller flag explicit: for an ENABLED and for a DISABLED
+controller alike (the flag only selects the reward window in `computeReward`), a successful `unstake_lp` with claims
+disabled takes the whole stake, sweeps the vault and closes the position; every partial unstake is rejected. -/
+theorem claims_disabled_full_only_any_controller (e : Env) (ctrl : Bool) (p : Pos) (vault un : Nat)
+    (hce : e.claimEnabled = false) :
+    (∀ o, unstakeLp { e with ctrlEnabled := ctrl } p vault un = some o →
+      un = p.amount ∧ o.fullExit = true ∧ o.transfer = vault ∧ o.pos = none) ∧
+    (un ≠ p.amount → unstakeLp { e with ctrlEnabled := ctrl } p vault un = none) := by
+  have key : ∀ o, unstakeLp { e with ctrlEnabled := ctrl } p vault un = some o →
+      un = p.amount ∧ o.fullExit = true ∧ o.transfer = vault ∧ o.pos = none := by
+    intro o h
+    obtain ⟨_, _, hfull, _, hdis⟩ := unstake_lp_spec h
+    obtain ⟨h1, h2⟩ := hdis hce
+    obtain ⟨h3, h4⟩ := hfull h2
+    exact ⟨h1, h2, h3, h4⟩
+  refine ⟨key, ?_⟩
+  intro hne
+  rcases Option.eq_none_or_eq_some (unstakeLp { e with ctrlEnabled := ctrl } p vault un) with h | ⟨o, h⟩
+  · exact h
+  · exact absurd (key o h).1 hne
+
 /-! ### Non-vacuity -/
 private def g1 : Nat → Nat := fun i => if i = 0 then 100 else if i = 1 then 40 else if i < 52 then 10 else 7
 example : twApy 1000 (1000 + 604800 + 302400) g1 = some 80 := by decide
@@ -259,5 +281,12 @@ example : unstakeSplit false 0 1000 (100 * 10 ^ 20) 1003 1000 = some (1003, true
 example : (unstakeLp ⟨true, 50 * 10 ^ 20, true, 0, 0, 7, 2000, g1⟩ ⟨1000, 100 * 10 ^ 20, 1000, 3⟩ 1003 400).map
     (fun o => (o.transfer, o.fullExit, o.pos.map (fun q => (q.amount, q.value)))) =
     some (400, false, some (600, 60 * 10 ^ 20)) := by decide
+
+-- `claims_disabled_full_only_any_controller`: claims disabled, controller DISABLED (reward window frozen at `disabledAt`):
+-- the full exit succeeds, the partial one is rejected; same with the controller enabled
+example : (unstakeLp ⟨false, 50 * 10 ^ 20, false, 1500, 5, 7, 2000, g1⟩ ⟨1000, 100 * 10 ^ 20, 1000, 3⟩ 1003 1000).map
+    (fun o => (o.transfer, o.fullExit, o.pos.isNone)) = some (1003, true, true) := by decide
+example : unstakeLp ⟨false, 50 * 10 ^ 20, false, 1500, 5, 7, 2000, g1⟩ ⟨1000, 100 * 10 ^ 20, 1000, 3⟩ 1003 400 = none ∧
+    unstakeLp ⟨false, 50 * 10 ^ 20, true, 0, 0, 7, 2000, g1⟩ ⟨1000, 100 * 10 ^ 20, 1000, 3⟩ 1003 400 = none := by decide
 
 end Gmx.C38
